@@ -46,6 +46,7 @@
 #include <mbedtls/pk.h>
 
 #include "bufferevent-internal.h"
+#include "ssl-compat.h"
 
 int __real_poll(struct pollfd *, nfds_t, int);
 int __real_ioctl(int, unsigned long, void *);
@@ -157,6 +158,7 @@ struct fctx {
 	uint64_t xkey_out, xkey_in, in_pos, out_pos;
 	unsigned in_hdr_have; unsigned char in_hdr[2]; size_t in_remaining; size_t rec_max;
 	vh_rng rng;
+	unsigned char xbuf[2][8192];  /* per direction: nested filter calls must not share scratch space */
 };
 struct moncb { struct endpoint *ep; int layer; };
 struct layer {
@@ -190,6 +192,7 @@ struct endpoint {
 	size_t r_max_win, r_low_min_win; int r_expect_cb;
 	size_t w_min_win, w_low_max_win; int w_expect_cb;
 	int in_rflush;
+	int wr_reenabled, rd_reenabled, rwm_changed, rflushed;   /* enable after disable happened and nothing moved since */
 	size_t last_in_len;
 	long wm_suspensions, low_gated;
 };
@@ -219,6 +222,7 @@ struct session {
 	int in_flush;             /* app is inside bufferevent_flush(mode != NORMAL) */
 	int strict;               /* forward stream: EOF must follow the last byte */
 	int use_wm;
+	int tls_retry_hazard;     /* data was appended to a TLS bev's output while its last SSL write was blocked */
 	int ended;                /* stop the session (violation found / terminal) */
 	long steps;
 	char cls[48];
@@ -270,6 +274,11 @@ static void verify_at(struct endpoint *ep, uint64_t at, const unsigned char *p, 
 				}
 			}
 			vh_hex(hx, sizeof(hx), p + done + i, n - done - i > 16 ? 16 : n - done - i);
+			if (ep->s->tls_retry_hazard) {
+				static char r2[64];
+				snprintf(r2, sizeof(r2), "%s-after-append-to-blocked-tls-write", rule);
+				rule = r2;
+			}
 			vh_viol(mkkey(ep->s, rule), "%s reader: mismatch at stream offset %llu (block %llu); got bytes %s.. which decode to block %llu; peer wrote %llu bytes",
 				side_name(ep), (unsigned long long)off, (unsigned long long)want_blk, hx, (unsigned long long)got_blk,
 				(unsigned long long)peer(ep)->written);
@@ -286,7 +295,6 @@ static void verify_at(struct endpoint *ep, uint64_t at, const unsigned char *p, 
 }
 
 /* ------------------------------------------------------------------ filters */
-static unsigned char fbuf[65536];
 static void xor_apply(uint64_t key, uint64_t pos, unsigned char *p, size_t n)
 {
 	size_t i;
@@ -299,6 +307,16 @@ static void xor_apply(uint64_t key, uint64_t pos, unsigned char *p, size_t n)
 }
 static void check_overfill(struct endpoint *ep, int ulayer, const char *who);
 
+static int filt_depth;
+static struct evbuffer *active_src[16];
+static size_t active_before[16], active_n[16], active_grown[16];   /* src length before the removal in progress, its size, bytes others added since */
+static int active_type[16], active_state[16];                     /* state: 0 unjudged, 1 source was consistent, 2 source was stale */
+/* called from the evbuffer monitors: somebody added n bytes to buf */
+static void note_growth(struct evbuffer *buf, size_t n)
+{
+	int i;
+	for (i = 0; i < filt_depth; i++) if (active_src[i] == buf) active_grown[i] += n;
+}
 static enum bufferevent_filter_result filt_run2(struct fctx *fx, int out, struct evbuffer *src, struct evbuffer *dst,
     ev_ssize_t lim, enum bufferevent_flush_mode mode, size_t avail, size_t cap, size_t *movedp)
 {
@@ -307,23 +325,29 @@ static enum bufferevent_filter_result filt_run2(struct fctx *fx, int out, struct
 	switch (fx->type) {
 	case FT_PASS:
 		n = avail < cap ? avail : cap;
+		active_before[filt_depth - 1] = evbuffer_get_length(src); active_grown[filt_depth - 1] = 0; active_n[filt_depth - 1] = n;
 		if (n && evbuffer_remove_buffer(src, dst, n) != (int)n) return BEV_ERROR;
+		active_n[filt_depth - 1] = 0;
 		*movedp = moved = n;
 		break;
 	case FT_CHUNK:
 		n = avail < cap ? avail : cap;
 		if (n > fx->k) n = fx->k;
+		active_before[filt_depth - 1] = evbuffer_get_length(src); active_grown[filt_depth - 1] = 0; active_n[filt_depth - 1] = n;
 		if (n && evbuffer_remove_buffer(src, dst, n) != (int)n) return BEV_ERROR;
+		active_n[filt_depth - 1] = 0;
 		*movedp = moved = n;
 		break;
 	case FT_XOR:
 		n = avail < cap ? avail : cap;
 		while (moved < n) {
-			size_t m = n - moved > sizeof(fbuf) ? sizeof(fbuf) : n - moved;
-			if (evbuffer_remove(src, fbuf, m) != (int)m) return BEV_ERROR;
-			if (out) { xor_apply(fx->xkey_out, fx->out_pos, fbuf, m); fx->out_pos += m; }
-			else { xor_apply(fx->xkey_in, fx->in_pos, fbuf, m); fx->in_pos += m; }
-			evbuffer_add(dst, fbuf, m);
+			unsigned char *xb = fx->xbuf[out];
+			size_t m = n - moved > sizeof(fx->xbuf[0]) ? sizeof(fx->xbuf[0]) : n - moved;
+			if (vh_opt.verbose > 1) VLOG("  [%s] xor %s layer %d pos=%llu m=%zu avail=%zu lim=%ld", side_name(fx->ep), out ? "out" : "in", fx->layer, (unsigned long long)(out ? fx->out_pos : fx->in_pos), m, avail, (long)lim);
+			if (evbuffer_remove(src, xb, m) != (int)m) return BEV_ERROR;
+			if (out) { xor_apply(fx->xkey_out, fx->out_pos, xb, m); fx->out_pos += m; }
+			else { xor_apply(fx->xkey_in, fx->in_pos, xb, m); fx->in_pos += m; }
+			evbuffer_add(dst, xb, m);
 			moved += m; *movedp = moved;
 		}
 		break;
@@ -372,8 +396,6 @@ static size_t chain_sum(struct evbuffer *b)
 	if (v != sv) free(v);
 	return t;
 }
-static int filt_depth;
-static struct evbuffer *active_src[16];
 static enum bufferevent_filter_result filt_run(struct fctx *fx, int out, struct evbuffer *src, struct evbuffer *dst,
     ev_ssize_t lim, enum bufferevent_flush_mode mode)
 {
@@ -389,17 +411,29 @@ static enum bufferevent_filter_result filt_run(struct fctx *fx, int out, struct 
 		int i;
 		for (i = 0; i < filt_depth; i++)
 			if (active_src[i] == src) {
-				if (fx->ep->s->ended) return BEV_NEED_MORE;
+				vh_stat("filter_reentered_on_same_source");
+				/* copying / framing filters hold bytes between their calls: they simply refuse */
+				if (fx->ep->s->ended || active_type[i] == FT_XOR || active_type[i] == FT_REC) return BEV_NEED_MORE;
+				if (active_state[i] == 2) return BEV_NEED_MORE;
+				if (active_state[i] == 1 || !active_n[i]) continue;
+				/* first re-entry while entry i is inside evbuffer_remove_buffer(src, dst, n): a consistent
+				 * src has already given up those n bytes */
+				if (avail == active_before[i] - active_n[i] + active_grown[i]) {
+					active_state[i] = 1; vh_stat("filter_reentry_saw_consistent_source");
+					continue;
+				}
+				active_state[i] = 2;
 				vh_viol(mkkey(fx->ep->s, "evbuffer-remove-buffer-reentrancy"),
-				    "%s filter layer %d (%s): be_filter_writecb re-entered the filter from inside its own partial evbuffer_remove_buffer(src, dst, n): src still reports %zu bytes including those already copied to dst",
-				    side_name(fx->ep), fx->layer, out ? "output" : "input", avail);
+				    "%s filter layer %d (%s): re-entered (be_filter_writecb / inbuf callback) from inside its own partial evbuffer_remove_buffer(src, dst, %zu): src had %zu bytes, %zu were added since, and it reports %zu, i.e. it still counts the bytes already copied to dst",
+				    side_name(fx->ep), fx->layer, out ? "output" : "input", active_n[i], active_before[i], active_grown[i], avail);
 				fx->ep->s->ended = 1;
 				return BEV_NEED_MORE;
 			}
 		if (filt_depth) vh_stat("filter_calls_nested");
 	}
 	if (filt_depth >= 16) return BEV_NEED_MORE;
-	active_src[filt_depth] = src;
+	active_src[filt_depth] = src; active_before[filt_depth] = avail; active_n[filt_depth] = 0; active_grown[filt_depth] = 0;
+	active_state[filt_depth] = 0; active_type[filt_depth] = fx->type;
 	filt_depth++;
 	res = filt_run2(fx, out, src, dst, lim, mode, avail, cap, &moved);
 	filt_depth--;
@@ -456,6 +490,7 @@ static void mon_in_cb(struct evbuffer *buf, const struct evbuffer_cb_info *info,
 	struct bufferevent *bev = l->bev;
 	size_t len = evbuffer_get_length(buf), high;
 	int top = (m->layer == ep->nl - 1);
+	if (info->n_added) note_growth(buf, info->n_added);
 	if (vh_opt.verbose > 1 && top) VLOG("  [%s] top input change: orig=%zu +%zu -%zu -> %zu", side_name(ep), info->orig_size, info->n_added, info->n_deleted, len);
 	if (!info->n_added || ep->freed || !bev) return;
 	high = bev->wm_read.high;
@@ -485,6 +520,7 @@ static void mon_in_cb(struct evbuffer *buf, const struct evbuffer_cb_info *info,
 		}
 	}
 	if (top) {
+		ep->rd_reenabled = 0; ep->rwm_changed = 0; ep->rflushed = 0;
 		if (len > ep->r_max_win) ep->r_max_win = len;
 		if (len >= bev->wm_read.low && (bev->enabled & EV_READ) && !ep->in_rflush && bev->readcb)
 			ep->r_expect_cb = 1;
@@ -498,12 +534,20 @@ static void mon_out_cb(struct evbuffer *buf, const struct evbuffer_cb_info *info
 	struct bufferevent *bev = ep->L[m->layer].bev;
 	size_t len = evbuffer_get_length(buf);
 	int top = (m->layer == ep->nl - 1);
+	if (info->n_added) note_growth(buf, info->n_added);
 	if (ep->freed || !bev) return;
+	if (info->n_added && layer_is_tls(&ep->L[m->layer])) {
+		/* witness class for stream errors below a TLS layer: bufferevent_ssl.c remembers only the
+		 * length of a blocked write (last_write) and re-peeks the output buffer on retry */
+		struct bufferevent_ssl *bs = bufferevent_ssl_upcast(bev);
+		if (bs->last_write > 0) { ep->s->tls_retry_hazard = 1; vh_stat("tls_append_while_write_blocked"); }
+	}
 	if (!top) {
 		if (info->n_added) check_overfill(ep, m->layer, "evbuffer callback");
 		return;
 	}
 	if (info->n_deleted) {
+		ep->wr_reenabled = 0;
 		if (len < ep->w_min_win) ep->w_min_win = len;
 		if (len <= bev->wm_write.low && bev->writecb) ep->w_expect_cb = 1;
 	}
@@ -571,8 +615,10 @@ static size_t consume(struct endpoint *ep, size_t max)
 		/* fall through */
 	default:
 		while (got < n) {
-			size_t rr;
+			size_t rr, cur = evbuffer_get_length(in);   /* a nested read callback may have taken some already */
 			m = n - got > sizeof(rbuf) ? sizeof(rbuf) : n - got;
+			if (m > cur) m = cur;
+			if (!m) break;
 			at = ep->consumed; ep->consumed += m;
 			rr = bufferevent_read(ep->top, lbuf, m);
 			if (rr != m) { vh_viol(mkkey(ep->s, "remove-short"), "bufferevent_read(%zu) returned %zu with %zu buffered", m, rr, n - got); ep->s->ended = 1; break; }
@@ -584,6 +630,13 @@ static size_t consume(struct endpoint *ep, size_t max)
 	if (lbuf != rbuf) free(lbuf);
 	vh_stat_add("bytes_consumed", (long)got);
 	return got;
+}
+static void app_enable(struct endpoint *ep, short what)
+{
+	short was = ep->top->enabled;
+	if ((what & EV_WRITE) && !(was & EV_WRITE) && evbuffer_get_length(ep->top->output)) ep->wr_reenabled = 1;
+	if ((what & EV_READ) && !(was & EV_READ)) ep->rd_reenabled = 1;
+	bufferevent_enable(ep->top, what);
 }
 static size_t pick_chunk(struct endpoint *ep)
 {
@@ -681,6 +734,7 @@ static void app_writecb(struct bufferevent *bev, void *arg)
 	if (ep->write_in_cb && ep->written < ep->total && vh_chance(&s->rng, 1, 2)) app_write(ep, pick_chunk(ep));
 }
 static int reset_fired;
+static const char *eof_cause = "";
 static void app_eventcb(struct bufferevent *bev, short what, void *arg)
 {
 	struct endpoint *ep = arg;
@@ -704,6 +758,15 @@ static void app_eventcb(struct bufferevent *bev, short what, void *arg)
 		return;
 	}
 	ep->term_what = what;
+	{
+		size_t il = evbuffer_get_length(bufferevent_get_input(ep->top)), hi = ep->top->wm_read.high;
+		int q, full = hi && il >= hi;
+		for (q = 1; q < ep->nl - 1; q++) {   /* a filter further down may be the one that is full */
+			struct bufferevent *u = ep->L[q].bev;
+			if (u->wm_read.high && evbuffer_get_length(u->input) >= u->wm_read.high) full = 1;
+		}
+		eof_cause = !(ep->top->enabled & EV_READ) || s->b_disabled_at_shut ? "-rd-disabled" : full ? "-at-high-watermark" : "";
+	}
 	consume(ep, (size_t)-1);   /* whatever was delivered is in the input buffer now */
 	D = ep->consumed; W = peer(ep)->written;
 	if (reset_fired) { vh_stat("terminal_after_injected_reset"); return; }
@@ -717,9 +780,11 @@ static void app_eventcb(struct bufferevent *bev, short what, void *arg)
 	if (s->strict) {
 		vh_stat("eof_checked_strict");
 		if (D < W) {
-			vh_viol(mkkey(s, s->b_disabled_at_shut ? "eof-before-data-rd-disabled" : "eof-before-data"),
+			char rule[64];
+			snprintf(rule, sizeof(rule), "eof-before-data%s", eof_cause);
+			vh_viol(mkkey(s, rule),
 			    "B: event 0x%x after %s with only %llu of %llu bytes delivered (reader %s at shutdown)", what, sm_name[s->shut_mode],
-			    (unsigned long long)D, (unsigned long long)W, s->b_disabled_at_shut ? "read-disabled" : "read-enabled");
+			    (unsigned long long)D, (unsigned long long)W, eof_cause[0] ? eof_cause + 1 : "read-enabled, below high watermark");
 			s->ended = 1;
 		} else vh_stat("eof_after_all_data");
 	} else vh_stat("terminal_prefix_only");
@@ -845,6 +910,22 @@ static void gen_config(struct session *s)
 			s->rwm[1][0] = 0; s->rwm[1][1] = VH_PICK(r, WM_H);
 			if (s->rwm[1][1] < minh) minh = s->rwm[1][1];
 		}
+	}
+	/* The library's own null filter moves data with a *partial* evbuffer_remove_buffer() whenever a
+	 * watermark limits it, and is then re-entered through be_filter_writecb / the inbuf callback while
+	 * that call is still in progress: the evbuffer's total_len underflows and the process dies in
+	 * evbuffer_remove_buffer (finding evbuffer-remove-buffer-reentrancy; our own PASS/CHUNK filters hit
+	 * the same defect but detect the re-entry and report it instead of crashing).  So a NULL filter is
+	 * not put where a watermark would make its moves partial. */
+	if (s->use_wm) {
+		int bl = 1 + (s->tls && !s->tls_fdmode);
+		for (side = 0; side < 2; side++)
+			for (j = 0; j < s->nfilt; j++) {
+				int li = bl + j, top = (j == s->nfilt - 1);
+				if (s->ft[side][j] != FT_NULL) continue;
+				if (s->uwm[side][li - 1][1] || (top ? (s->rwm[side][1] || wm_mode) : s->urh[side][li]))
+					s->ft[side][j] = FT_PASS;
+			}
 	}
 	/* keep the number of loop iterations / filter calls a session needs bounded */
 	if (minh != (size_t)-1 && A->total / minh > 3000) A->total = minh * 3000;
@@ -973,6 +1054,7 @@ static void set_rwm(struct endpoint *ep, struct bufferevent *bev, size_t low, si
 	bufferevent_setwatermark(bev, EV_READ, low, high);
 	if (bev == ep->top && low < ep->r_low_min_win) ep->r_low_min_win = low;
 	if (bev == ep->top) ep->r_expect_cb = 0;   /* the gate changed: an earlier trigger decision may no longer apply */
+	ep->rwm_changed = 1;
 	vh_stat("setwatermark_read");
 }
 static void set_wwm(struct endpoint *ep, struct bufferevent *bev, size_t low, size_t high)
@@ -1011,6 +1093,13 @@ static void lock_check(struct session *s, const char *where)
 static void one_step(struct session *s)
 {
 	if (vh_opt.verbose > 1) VLOG("  step %ld", s->steps);
+	/* exactly one iteration: EVLOOP_NONBLOCK alone keeps iterating while callbacks are active, and
+	 * bufferevent_inbuf_wm_check() keeps a deferred read callback active for as long as an input
+	 * sits at its high watermark */
+	{
+		struct timeval zero = { 0, 0 };
+		event_base_loopexit(s->base, &zero);
+	}
 	event_base_loop(s->base, EVLOOP_NONBLOCK);
 	s->steps++;
 	vh_stat("loop_steps");
@@ -1093,7 +1182,11 @@ static void teardown(struct session *s)
 	if (s->lis) evconnlistener_free(s->lis);
 	if (s->accepted_fd >= 0) close(s->accepted_fd);
 	if (s->base) {
-		for (i = 0; i < 8; i++) event_base_loop(s->base, EVLOOP_NONBLOCK);
+		for (i = 0; i < 8; i++) {
+			struct timeval zero = { 0, 0 };
+			event_base_loopexit(s->base, &zero);
+			event_base_loop(s->base, EVLOOP_NONBLOCK);
+		}
 		event_base_free(s->base);
 	}
 	lock_check(s, "teardown");
@@ -1184,16 +1277,21 @@ static int transport_settle(struct session *s)
 		if (W->freed) continue;
 		__real_ioctl(W->fd, TIOCOUTQ, &outq);
 		if (outq <= 0 || fionread(R->fd) > 0) continue;
-		__real_ioctl(W->fd, SIOCOUTQNSD, &unsent);
-		for (i = 0; i < (unsent > 0 ? 100 : 1); i++) {
+		/* bytes are in W's send queue and not in R's receive queue: unsent (Nagle, closed window,
+		 * persist timer), lost to a full receive buffer (RTO), or delivered and merely un-ACKed
+		 * (delayed ACK; then outq drops to 0 by itself).  Wait in real time, at most ~3 s. */
+		(void)unsent;
+		for (i = 0; i < 300; i++) {
 			struct pollfd p;
 			p.fd = R->fd; p.events = POLLIN; p.revents = 0;
 			waited = 1;
-			if (__real_poll(&p, 1, 5) > 0) { vh_stat("real_wait_for_tcp_delivery"); return 1; }
-			unsent = 0; __real_ioctl(W->fd, SIOCOUTQNSD, &unsent);
-			if (unsent <= 0) break;
+			if (__real_poll(&p, 1, 10) > 0) { vh_stat("real_wait_for_tcp_delivery"); return 1; }
+			outq = 0; __real_ioctl(W->fd, TIOCOUTQ, &outq);
+			if (outq <= 0) break;
+			if (event_pending(&W->L[0].bev->ev_write, EV_WRITE, NULL) && fd_ready(W->fd, POLLOUT)) return 1;
 		}
-		if (unsent > 0) { kernel_in_flight = 1; vh_stat("tcp_unsent_after_500ms"); }
+		if (outq <= 0 && fd_work_pending(s)) return 1;
+		if (outq > 0) { kernel_in_flight = 1; vh_stat("tcp_in_flight_after_3s"); }
 	}
 	if (waited) vh_stat("real_wait_timeouts");
 	return 0;
@@ -1272,14 +1370,36 @@ static void check_liveness(struct session *s, const char *where, int st)
 		}
 		{
 			/* where do the missing bytes sit?  (witness class of the key) */
-			char rule[64], at[32] = "transport";
+			char rule[96], at[48] = "transport";
+			const char *cause = "";
 			int j;
 			for (j = W->nl - 1; j >= 0; j--)
-				if (evbuffer_get_length(W->L[j].bev->output)) { snprintf(at, sizeof(at), "in-%s-output", kind_name(&W->L[j])); break; }
-			if (j < 0)
+				if (evbuffer_get_length(W->L[j].bev->output)) {
+					snprintf(at, sizeof(at), "in-%s-output", kind_name(&W->L[j]));
+					cause = (j == W->nl - 1 && W->wr_reenabled) ? ":after-write-reenable" : "";
+					break;
+				}
+			if (j < 0) {
 				for (j = 0; j < R->nl - 1; j++)
-					if (evbuffer_get_length(R->L[j].bev->input)) { snprintf(at, sizeof(at), "below-%s-input", kind_name(&R->L[j + 1])); break; }
-			snprintf(rule, sizeof(rule), "%s:%s", s->use_wm ? "no-resume" : "stalled", at);
+					if (evbuffer_get_length(R->L[j].bev->input)) {
+						snprintf(at, sizeof(at), "below-%s-input", kind_name(&R->L[j + 1]));
+						cause = R->rd_reenabled ? ":after-read-reenable" : R->rwm_changed ? ":after-setwatermark" :
+						    (R->top->wm_read.high || R->L[j + 1].bev->wm_read.high) ? ":high-watermark" : "";
+						break;
+					}
+				if (j >= R->nl - 1 && R->tls_layer >= 0) {
+					struct bufferevent *tb = R->L[R->tls_layer].bev;
+					size_t pend = R->tls == TLS_OSSL ? (size_t)SSL_pending(bufferevent_openssl_get_ssl(tb))
+					    : mbedtls_ssl_get_bytes_avail(bufferevent_mbedtls_get_ssl(tb));
+					if (pend) {
+						snprintf(at, sizeof(at), "in-tls-object-%s", R->tls_fdmode ? "fd" : "bev");
+						cause = R->rwm_changed ? ":after-setwatermark" : "";
+					}
+				}
+			}
+			if (R->rflushed && R->nl > 1) { cause = ":after-read-flush"; snprintf(at, sizeof(at), "filter-stack"); }
+			else if (!strcmp(at, "transport") && s->tls_retry_hazard) cause = ":after-append-to-blocked-tls-write";
+			snprintf(rule, sizeof(rule), "%s:%s%s", R->top->wm_read.high ? "no-resume" : "stalled", at, cause);
 			vh_viol(mkkey(s, rule),
 			    "%s (%s): %s->%s wrote %llu, delivered %llu (input holds %zu, high watermark %zu, low %zu); both enabled, nothing blocks, loop %s; bytes sit %s",
 			    where, sm_name[s->shut_mode], side_name(W), side_name(R), (unsigned long long)W->written, (unsigned long long)delivered,
@@ -1325,7 +1445,7 @@ static void act_flush(struct endpoint *ep, short iotype, enum bufferevent_flush_
 	if (ep->freed) return;
 	s->in_flush = mode != BEV_NORMAL;
 	VLOG("  [%s] flush io=%d mode=%d", side_name(ep), iotype, mode);
-	if (iotype & EV_READ) ep->in_rflush = 1;
+	if (iotype & EV_READ) { ep->in_rflush = 1; ep->rflushed = 1; }
 	bufferevent_flush(ep->top, iotype, mode);
 	s->in_flush = 0; ep->in_rflush = 0;
 	vh_stat(mode == BEV_NORMAL ? "flush_normal" : mode == BEV_FLUSH ? "flush_flush" : "flush_finished");
@@ -1372,14 +1492,14 @@ static void plan_faults(struct session *s)
 	n = 4 + (int)vh_below(r, 21);
 	for (i = 0; i < n; i++) {
 		int sym = VH_PICK(r, syms);
-		long nth = 1 + (long)vh_below(r, 400);
+		long nth = 1 + (long)vh_below(r, 60);
 		if (sym == SF_ioctl || vh_chance(r, 1, 2)) sf_plan(sym, nth, SFA_SHORT, VH_PICK(r, shorts));
 		else sf_plan(sym, nth, SFA_ERRNO, vh_chance(r, 3, 4) ? EAGAIN : EINTR);
 	}
 	vh_stat("sessions_with_short_io_eagain_plan");
 	if (s->reset_planned) {
 		int wr = vh_chance(r, 1, 3);
-		sf_plan(wr ? SF_writev : SF_readv, 2 + (long)vh_below(r, 80), SFA_ERRNO, wr && vh_chance(r, 1, 2) ? EPIPE : ECONNRESET);
+		sf_plan(wr ? SF_writev : SF_readv, 2 + (long)vh_below(r, 30), SFA_ERRNO, wr && vh_chance(r, 1, 2) ? EPIPE : ECONNRESET);
 		vh_stat("sessions_with_reset_plan");
 	}
 }
@@ -1398,11 +1518,11 @@ static void traffic(struct session *s)
 			else if (x < 55) app_write(B, pick_chunk(B));
 			else if (x < 63) {
 				VLOG("  [%s] toggle read -> %s", side_name(ep), (ep->top->enabled & EV_READ) ? "off" : "on");
-				if (ep->top->enabled & EV_READ) bufferevent_disable(ep->top, EV_READ); else bufferevent_enable(ep->top, EV_READ);
+				if (ep->top->enabled & EV_READ) bufferevent_disable(ep->top, EV_READ); else app_enable(ep, EV_READ);
 				vh_stat("toggle_read");
 			} else if (x < 69) {
 				VLOG("  [%s] toggle write -> %s", side_name(ep), (ep->top->enabled & EV_WRITE) ? "off" : "on");
-				if (ep->top->enabled & EV_WRITE) bufferevent_disable(ep->top, EV_WRITE); else bufferevent_enable(ep->top, EV_WRITE);
+				if (ep->top->enabled & EV_WRITE) bufferevent_disable(ep->top, EV_WRITE); else app_enable(ep, EV_WRITE);
 				vh_stat("toggle_write");
 			} else if (x < 76) {
 				if (vh_chance(r, 3, 4)) act_flush(ep, EV_WRITE, vh_chance(r, 1, 2) ? BEV_NORMAL : BEV_FLUSH);
@@ -1437,7 +1557,7 @@ static void drain_phase(struct session *s)
 	for (side = 0; side < 2; side++) {
 		struct endpoint *ep = &s->ep[side];
 		ep->rp_mode = RP_ALL; ep->tog_in_cb = 0;
-		bufferevent_enable(ep->top, EV_READ | EV_WRITE);
+		app_enable(ep, EV_READ | EV_WRITE);
 	}
 	for (round = 0; round < 100000 && !s->ended; round++) {
 		size_t got = 0;
@@ -1488,7 +1608,7 @@ static void shutdown_phase(struct session *s)
 		s->strict = clean;
 	} else if (mode == SM_FINISHED_FLUSH) {
 		s->strict = clean;
-		bufferevent_enable(A->top, EV_WRITE);
+		app_enable(A, EV_WRITE);
 	} else s->strict = clean && all_drained(A) && B->consumed + evbuffer_get_length(B->top->input) == A->written;
 	if (s->strict && s->b_disabled_at_shut) { bufferevent_disable(B->top, EV_READ); b_off = 1; }
 	s->b_disabled_at_shut = !(B->top->enabled & EV_READ);
@@ -1508,7 +1628,7 @@ static void shutdown_phase(struct session *s)
 		act_flush(A, EV_WRITE, BEV_FINISHED);
 		if (sock) {
 			int i;
-			if (b_off) { settle(s, "finished-flush"); bufferevent_enable(B->top, EV_READ); b_off = 0; }
+			if (b_off) { settle(s, "finished-flush"); if (!B->n_term_rd) app_enable(B, EV_READ); b_off = 0; }
 			for (i = 0; i < 1000 && !s->ended && !all_drained(A); i++) { settle(s, "finished-flush"); consume(B, (size_t)-1); }
 			if (s->ended) return;
 			if (!all_drained(A)) { vh_stat("shutdown_not_drained"); s->strict = 0; }
@@ -1520,10 +1640,13 @@ static void shutdown_phase(struct session *s)
 	settle(s, "after-shutdown");
 	if (s->ended) return;
 	if (b_off) {
-		if (!B->n_term_rd) vh_stat("no_terminal_while_read_disabled");
-		bufferevent_enable(B->top, EV_READ);
-		settle(s, "after-shutdown-enable");
-		if (s->ended) return;
+		if (!B->n_term_rd) {
+			/* an application that was told EOF does not re-enable reading */
+			vh_stat("no_terminal_while_read_disabled");
+			app_enable(B, EV_READ);
+			settle(s, "after-shutdown-enable");
+			if (s->ended) return;
+		} else vh_stat("terminal_while_read_disabled");
 	}
 	consume(B, (size_t)-1);
 	if (expect_term && s->strict) {
@@ -1592,6 +1715,13 @@ static void run_case(long idx, vh_rng *rng)
 		for (i = 0; i < 20000 && !s->ended && !(A->connected == 1 && B->connected == 1); i++) {
 			one_step(s);
 			if (!fd_work_pending(s) && !event_base_get_num_events(s->base, EVENT_BASE_COUNT_ACTIVE)) break;
+		}
+	}
+	if (s->tls && !s->ended && !reset_fired && (A->connected != 1 || B->connected != 1)) {
+		/* whatever the shutdown mode: the application waits for the handshake before it shuts down */
+		for (i = 0; i < 20000 && !s->ended && !(A->connected == 1 && B->connected == 1); i++) {
+			one_step(s);
+			if (!fd_work_pending(s) && !event_base_get_num_events(s->base, EVENT_BASE_COUNT_ACTIVE) && !transport_settle(s)) break;
 		}
 	}
 	if (s->tls && !s->ended && !reset_fired && (A->connected != 1 || B->connected != 1)) {
